@@ -140,6 +140,14 @@ pub fn run(rep: &mut Report, thorough: bool) {
             if under_dev {
                 rep.count("images_mapped_from_dev_shm", 1);
             }
+            // a deleted image whose ELF header page has been made inaccessible by the target: the
+            // vectored read cannot see it, the other two read strategies can (they force through
+            // page protections), and there is no file left to fall back to
+            if (delete || under_dev) && pad == 0 && rng.chance(1, 2) {
+                let nreg = b.spec.regions.len();
+                b.spec.regions[nreg - 3].prot = 0;
+                rep.count("images_with_inaccessible_header_page", 1);
+            }
             if rng.chance(1, 6) {
                 // the same file a second time, elsewhere
                 let f = files.last().unwrap().clone();
